@@ -114,6 +114,21 @@ func ruleC04a(c *Ctx) {
 			})
 		}
 	}
+	// the wrapper stores the binder's result on every path
+	if w := p.fn("(*Route).wrapRequestResponse"); w != nil {
+		sites := map[ssa.Instruction]bool{}
+		eachInstr(w, func(i ssa.Instruction) {
+			if st, ok := i.(*ssa.Store); ok {
+				if fa, ok := st.Addr.(*ssa.FieldAddr); ok && ownerOfFieldAddr(fa) == "Request" && fieldOfAddr(fa).Name() == "pathParameters" {
+					if _, isParam := strip(st.Val).(*ssa.Parameter); isParam {
+						sites[i] = true
+					}
+				}
+			}
+		})
+		min, _, ok := countOnPaths(w, nil, sites)
+		c.check(ok && min >= 1, p.fname(w), "the wrapped Request receives the extracted parameters", p.pos(w.Pos()), "pathParameters = pathParams on every path", "the wrapper does not store the extracted parameters into the Request: handlers see an empty map")
+	}
 	// stores to Request.pathParameters
 	for _, fn := range p.SrcFunc {
 		eachInstr(fn, func(i ssa.Instruction) {
